@@ -17,6 +17,12 @@ Clauses(e) ==
   THEN [ loaded_equivalent |-> e.params_equal = TRUE /\ e.names_equal = TRUE /\ e.model_equal = TRUE
                                /\ e.strategy_equal = TRUE /\ e.mb_hologram <= Tol_fit_consistency
                                /\ e.mb_lnprob <= Tol_fit_consistency /\ e.data_equal = TRUE ]
+  ELSE IF e.event = "FrontEndFit"        \* hp.fit(data, scatterer | model, parameters, strategy), FitFrontEnd.tla
+  THEN [ names_are_requested  |-> e.names_ok = TRUE,
+         strategy_as_requested |-> e.strategy_ok = TRUE,
+         fixed_point          |-> e.mb_param_error <= Tol_fit_recover,
+         repeatable           |-> e.mb_repeat <= Tol_fit_repeat,
+         inputs_reusable      |-> e.inputs_unchanged = TRUE ]
   ELSE [known_event |-> FALSE]
 StepOK(e) == \A k \in DOMAIN Clauses(e) : Clauses(e)[k]
 Init == /\ tid \in Tids /\ l = 1 /\ TLCSet(tid, 1)
